@@ -23,6 +23,9 @@ def plan(tier, seed):
     L = catalog.leaves(seed, n_random=3 if tier == "quick" else 8)
     all_leaves = list(L.values())
     forms = catalog.slice_forms()
+    # off-diagonal blocks / permuted index arrays of larger declared-self-adjoint parents (.T/.H shortcuts)
+    offs = dict(seeds=list(catalog.big_annotated_leaves().values()), operands=[L["D22"]], small=[L["D22c"]],
+                acts={"Annot", "Sliced"}, lvl=2, dim=5, forms=catalog.offset_forms(), stride=1, ebound=40)
     if tier == "quick":
         ops = [L[n] for n in ["D23", "D32c", "Dg2c", "Hc22"]]
         seeds2 = [L[n] for n in ["D22c", "D23", "Hc22", "Sy22", "Un22c", "St32", "S33", "Td3", "K22", "H2c", "F4",
@@ -31,6 +34,7 @@ def plan(tier, seed):
         ops1 = [L[n] for n in ["D22", "D22c", "D33", "D23", "D32c", "D13", "D31", "TL22", "S23", "Dg2c", "Td3", "I2", "Sc3",
                                "P3", "H2c", "K22", "F1", "Hc22", "Sy22", "Un22c", "St32", "R0"]]
         return [
+            offs,
             dict(seeds=all_leaves, operands=ops1, small=small, acts=ACTS, lvl=1, dim=12, forms=forms, stride=5),
             dict(seeds=seeds2[:10], operands=ops, small=small, acts=ACTS - {"Concatenated"}, lvl=2, dim=6, forms=forms,
                  stride=13),
@@ -40,6 +44,7 @@ def plan(tier, seed):
     ops = [L[n] for n in ["D22", "D23", "D32c", "Dg2c", "I2", "P3", "Sc2", "S33", "Hc22", "Un22c", "R0", "R1"]]
     small = [L["D22c"], L["Dg2"], L["D23"]]
     return [
+        offs,
         dict(seeds=all_leaves, operands=all_leaves, small=small, acts=ACTS, lvl=1, dim=36, forms=forms, stride=1),
         dict(seeds=all_leaves, operands=ops, small=small, acts=ACTS | {"Kronecker3", "BlockDiag3"}, lvl=2, dim=8,
              forms=forms, stride=7),
